@@ -396,8 +396,18 @@ def h_java_assign(eng):
     got = bool(s.is_assignable(t))
     # JLS 5.1.2 widening primitive conversion (+ identity); boxed types convert only to themselves /
     # their supertypes; the tool additionally lets integral literals' types flow to wider *boxed* types.
-    widening = i <= j
-    ok = (not got) or widening or s.is_subtype(t)
+    # JLS 5.2 assignment contexts: primitive -> primitive by identity / widening; primitive -> boxed only by boxing to its own
+    # box (widening followed by boxing is not permitted: `Integer x = aShort` is rejected); boxed -> boxed identity;
+    # boxed -> primitive by unboxing followed by widening
+    if pi and pj:
+        jls = i <= j
+    elif pi and not pj:
+        jls = i == j
+    elif not pi and not pj:
+        jls = i == j
+    else:
+        jls = i <= j
+    ok = (not got) or jls
     eng.event('java-assign')
     eng.notes['sample'] = dict(S=names[i], T=names[j], primitive=(pi, pj), assignable=got)
     return [Ob('java-assignable|%s->%s' % (names[i], names[j]), ok,
